@@ -179,6 +179,7 @@ func nontrivial(w *drv.World) bool {
 }
 
 func finish(rec *ev.Recorder, w *drv.World) {
+	reportKnown(rec, w)
 	nt := nontrivial(w)
 	labels := w.Labels()
 	if nt {
@@ -204,7 +205,7 @@ func TestC02Metabase(t *testing.T) {
 		}
 		defer func() { _ = b.Close() }()
 		w := drv.NewWorld(cat, b, ep)
-		applyKnown(rec, w)
+		applyKnown(w)
 		cc := &caseCtx{rec: rec, w: w, bound: uint64(cat.NC*uni.NObjects + 1)}
 		defer finish(rec, w)
 		acts := w.Actions()
